@@ -3,6 +3,7 @@
 //! current tree, so that macro *output* is analysed.
 #![allow(dead_code, unused_variables, clippy::all)]
 
+pub mod c01;
 pub mod c10;
 pub mod c11;
 pub mod c15;
